@@ -564,7 +564,24 @@ pub fn run_history_free(h: &History) -> Vec<Failure> {
 /// failures of a history for a property: the lock-step run against the reference engine; when that run stops at a failure of ANOTHER property, the model-free
 /// audits of the rest of the history as well
 fn fails_for(h: &History, prop: &str) -> Vec<Failure> {
-    let f = run_history(h);
+    let mut f = run_history(h);
+    if prop == "C07" && !f.is_empty() && !f.iter().any(|x| matches_prop(x, prop)) {
+        // C07 also says: a reloaded book stays indistinguishable from the original under every subsequent sequence of operations.  A history that deviates from the
+        // reference engine AFTER a reload, and does not deviate at all when the reloads are left out, is a failure of the snapshot - not of the matching rules.
+        let first_reload = h.ops.iter().position(|o| matches!(o, Op::Reload | Op::ReloadFile { .. }));
+        if let Some(r) = first_reload {
+            if f.iter().all(|x| x.step > r) {
+                let mut h2 = h.clone();
+                h2.ops = h.ops.iter().filter(|o| !matches!(o, Op::Reload | Op::ReloadFile { .. })).cloned().collect();
+                if run_history(&h2).is_empty() {
+                    for x in f.iter_mut() {
+                        x.clause = format!("C07.continuation ({})", x.clause);
+                    }
+                    return f;
+                }
+            }
+        }
+    }
     if f.is_empty() || f.iter().any(|x| matches_prop(x, prop)) {
         return f;
     }
